@@ -404,3 +404,8 @@ package vm
 //@ func (*VM).registerBuiltins$11
 //@   strict
 //@   ensures len(args) == 3 && kindV(args[0]) == 3 && kindV(args[1]) == 1 && kindV(args[2]) == 1 ==> ((result1 == nil) == subOK(args[0].(StringValue).Val, args[1].(IntValue).Val, args[2].(IntValue).Val))
+
+// object iteration order (C01, C02: as in the interpreter, ascending key order - not Go's random map order)
+//@ func (*VM).execGetIter
+//@   requires vm != nil
+//@   assertat "iterID := vm.nextIterID" forall(i, 0, len(iter.keys) - 1, !strlt(iter.keys[i+1], iter.keys[i]))
